@@ -54,6 +54,7 @@ let parse_action s =
   | 'd' -> ADropPeer (num (tail s))
   | 'p' -> AProgress (num (tail s))
   | 'w' -> AWake (num (tail s))
+  | 'k' -> AWakeC (num (tail s))
   | 'z' -> ACleanup
   | 'R' -> (match String.split_on_char '.' (tail s) with
             | [t; a; b; c] -> ARaw (num t, num a, num b, num c)
@@ -97,6 +98,8 @@ let note tag args =
   | 114 -> "xwake:" ^ g 0
   | 115 -> ">start:" ^ g 0
   | 116 -> "ystep:" ^ g 0
+  | 117 -> "op:" ^ g 0
+  | 118 -> "kwake:" ^ g 0
   | t -> Printf.sprintf "note%d:%s" t (String.concat "," a)
 
 let show = function
